@@ -2,7 +2,8 @@
    [C27_mismatch] (model vs implementation) and the property monitor
    [C27_monitor] (implementation observations only). *)
 From WK Require Import Base.Base Base.Bytes Gen.Consts_C27.
-From WK Require Export Model.ClusterCodecBase Model.ClusterCodec_Replication.
+From WK Require Export Model.ClusterCodecBase Model.ClusterCodec_Replication Model.ClusterCodec_Propose
+  Model.ClusterCodec_Channels.
 Open Scope N_scope.
 
 (* long byte strings arrive in chunks: (hxc "6869..." (hxc "..." [])) *)
@@ -13,7 +14,27 @@ Definition hxc (s : string) (rest : bytes) : bytes := hx s ++ rest.
    ([res]; None = an error was returned) *)
 Inductive c27_payload :=
 | PReplBatch (vbits : list bool) (v : option exchange_batch) (res : option exchange_batch)
-| PReplResult (v : option exchange_batch_result) (res : option exchange_batch_result).
+| PReplResult (v : option exchange_batch_result) (res : option exchange_batch_result)
+| PProposePayload (v : option (N * bytes)) (res : option (N * bytes))
+| PForward (v : option forward_request) (res : option forward_request)
+| PNetHeader (want_version want_kind : N) (v : option bytes) (res : option bytes)
+(* pkg/cluster/channels: (frame version, body) *)
+| PChPull (v res : option (N * pull_request))
+| PChPullBatch (v res : option (N * list pull_request))
+| PChAck (v res : option (N * ack_request))
+| PChPullHint (v res : option (N * pull_hint_request))
+| PChPullHintBatch (v res : option (N * list pull_hint_request))
+| PChNotify (v res : option (N * notify_request))
+| PChAppend (v res : option (N * append_request))
+| PChAppendBatch (v res : option (N * append_batch_request))
+| PChLastVisible (v res : option (N * last_visible_request))
+| PChConversationHeads (v res : option (N * conversation_heads_request))
+| PChCommittedReads (v res : option (N * option (list committed_read_request)))
+| PChPullResponse (v res : option (N * pull_response))
+| PChAppendResponse (v res : option (N * append_result))
+| PChLastVisibleResponse (v res : option (N * last_visible_response))
+(* codecs without a model: the harness compared Decode (Encode v) with v itself *)
+| POpaque (id : N) (dec_ok rt_same : bool).
 
 Record c27_case := C27Case {
   c_mode : N;              (* 0 value (bytes = Encode v), 1 strict prefix of an encoding,
@@ -33,25 +54,29 @@ Definition valid_of (bits : list bool) : nat -> exchange_item -> bool :=
   fun i _ => nth i bits false.
 
 Definition res_eqb {A} (f : fmt A) : option A -> option A -> bool := option_eqb (veqb f).
+Definition pair_eqb (a b : N * bytes) : bool := (fst a =? fst b) && bytes_eqb (snd a) (snd b).
 Definition is_none {A} (o : option A) : bool := match o with None => true | Some _ => false end.
 
 (* ---- correspondence: the model's Encode / Decode against the implementation's --------- *)
 
-Definition mismatch_codec {A} (f : fmt A) (encode_m : A -> option bytes) (decode_m : bytes -> option A)
+Definition mismatch_eq {A} (eqb : A -> A -> bool) (encode_m : A -> option bytes) (decode_m : bytes -> option A)
            (c : c27_case) (v res : option A) : bool :=
   match c_mode c, v with
   | 0, Some x =>
     if c_enc_ok c
     then negb (option_eqb bytes_eqb (encode_m x) (Some (c_data c)))
-         || negb (res_eqb f (decode_m (c_data c)) res)
+         || negb (option_eqb eqb (decode_m (c_data c)) res)
     else negb (is_none (encode_m x))
   | 0, None => true                         (* value mode without a value: malformed case *)
-  | _, _ => negb (res_eqb f (decode_m (c_data c)) res)
+  | _, _ => negb (option_eqb eqb (decode_m (c_data c)) res)
   end.
+Definition mismatch_codec {A} (f : fmt A) := mismatch_eq (veqb f).
 
 (* what Decode returned: the payload's [res], or the generated value when the harness left it out *)
 Definition eff_res {A} (c : c27_case) (v res : option A) : option A :=
   if c_res_same c then v else res.
+
+Definition mismatch_frame {A} (f : fmt (N * A)) := mismatch_codec f (encode_frame f) (decode_frame f).
 
 Definition C27_mismatch (c : c27_case) : bool :=
   match c_payload c with
@@ -60,6 +85,27 @@ Definition C27_mismatch (c : c27_case) : bool :=
     mismatch_codec (exchangeBatch valid) (EncodeExchangeBatch valid) (DecodeExchangeBatch valid) c v (eff_res c v res)
   | PReplResult v res =>
     mismatch_codec exchangeBatchResult EncodeExchangeBatchResult DecodeExchangeBatchResult c v (eff_res c v res)
+  | PProposePayload v res =>
+    mismatch_eq pair_eqb (fun x => Some (EncodePayload (fst x) (snd x))) DecodePayload c v (eff_res c v res)
+  | PForward v res =>
+    mismatch_eq forward_eqb EncodeForwardRequest DecodeForwardRequest c v (eff_res c v res)
+  | PNetHeader wv wk v res =>
+    mismatch_eq bytes_eqb (fun x => Some (PutHeader [] wv wk ++ x)) (fun d => CheckHeader d wv wk) c v (eff_res c v res)
+  | PChPull v res => mismatch_frame f_pull c v (eff_res c v res)
+  | PChPullBatch v res => mismatch_frame f_pull_batch c v (eff_res c v res)
+  | PChAck v res => mismatch_frame f_ack c v (eff_res c v res)
+  | PChPullHint v res => mismatch_frame f_pull_hint c v (eff_res c v res)
+  | PChPullHintBatch v res => mismatch_frame f_pull_hint_batch c v (eff_res c v res)
+  | PChNotify v res => mismatch_frame f_notify c v (eff_res c v res)
+  | PChAppend v res => mismatch_frame f_append c v (eff_res c v res)
+  | PChAppendBatch v res => mismatch_frame f_append_batch c v (eff_res c v res)
+  | PChLastVisible v res => mismatch_frame f_last_visible c v (eff_res c v res)
+  | PChConversationHeads v res => mismatch_frame f_conversation_heads c v (eff_res c v res)
+  | PChCommittedReads v res => mismatch_frame f_committed_reads c v (eff_res c v res)
+  | PChPullResponse v res => mismatch_frame f_pull_response c v (eff_res c v res)
+  | PChAppendResponse v res => mismatch_frame f_append_response c v (eff_res c v res)
+  | PChLastVisibleResponse v res => mismatch_frame f_last_visible_response c v (eff_res c v res)
+  | POpaque _ _ _ => false
   end.
 
 (* ---- the property on the implementation's observations ------------------------------------
@@ -74,7 +120,75 @@ Definition alloc_under (base per_byte : N) (c : c27_case) : bool :=
   (c_alloc c <=? base + per_byte * blen (c_data c))
   && (c_alloc_trunc c <=? base + per_byte * blen (c_data c)).
 
-Definition monitor_codec {A} (f : fmt A) (in_bounds : A -> bool) (base per_byte : N)
+(* [hdr]: how many leading bytes the codec can miss.  A self-delimiting codec
+   (a length or a trailing-bytes check covers the whole input) has hdr = None:
+   EVERY strict prefix must be rejected.  An envelope that hands "the rest of
+   the input" on (propose payload, net header) has hdr = Some h: prefixes
+   shorter than h must be rejected, longer ones are valid envelopes of a
+   shorter rest and cannot be told from truncations by any decoder. *)
+Definition prefix_must_fail (hdr : option N) (k : N) : bool :=
+  match hdr with None => true | Some h => k <? h end.
+
+Definition monitor_eq {A} (eqb : A -> A -> bool) (in_bounds : A -> bool) (hdr : option N)
+           (base per_byte : N) (c : c27_case) (v res : option A) : N :=
+  if negb (alloc_under base per_byte c) then 1
+  else match c_mode c with
+       | 0 =>
+         match v with
+         | Some x =>
+           if c_enc_ok c then
+             if in_bounds x && negb (option_eqb eqb res (Some x)) then 1
+             else if existsb (prefix_must_fail hdr) (c_trunc_ok c) then 1
+             else 0
+           else 0
+         | None => 1
+         end
+       | 1 => if prefix_must_fail hdr (blen (c_data c)) && negb (is_none res) then 1 else 0
+       | _ => 0
+       end.
+Definition monitor_codec {A} (f : fmt A) (in_bounds : A -> bool) := monitor_eq (veqb f) in_bounds None.
+
+(* ---- channels codec: struct fields the wire does not carry ------------------------------------
+   KNOWN FINDING C27-K1 (code 2): Message.SyncOnce, Record.SyncOnce and
+   Meta.RouteGeneration are not written by appendMessage / appendRecord /
+   appendMeta, so a value with one of them set does not come back.  The
+   signature is exact: the value is outside the codec's domain ONLY because
+   of those fields (it is in the domain once they are zeroed, [clear]) and
+   Decode returned the value with exactly those fields zeroed. *)
+Definition clear_message (m : cmessage) : cmessage :=
+  CMessage (cm_id m) (cm_seq m) (cm_channel_id m) (cm_channel_type m) (cm_setting m) (cm_from_uid m)
+           (cm_client_msg_no m) (cm_ts m) (cm_trace_id m) (cm_channel_key m) false (cm_payload m).
+Definition clear_record (r : crecord) : crecord :=
+  CRecord (cr_id r) (cr_index r) (cr_epoch r) (cr_setting r) (cr_from_uid r) (cr_client_msg_no r)
+          (cr_ts r) false (cr_payload r) (cr_size r).
+Definition clear_meta (m : cmeta) : cmeta :=
+  CMeta (me_key m) (me_id m) (me_epoch m) (me_leader_epoch m) 0 (me_leader m) (me_replicas m) (me_isr m)
+        (me_min_isr m) (me_lease_until m) (me_retention_through_seq m) (me_fence_token m) (me_fence_version m)
+        (me_fence_reason m) (me_fence_until m) (me_status m).
+Definition omap {A B} (f : A -> B) (o : option A) : option B :=
+  match o with Some x => Some (f x) | None => None end.
+Definition clear_append (q : append_request) : append_request :=
+  AppendRequest (ap_id q) (clear_message (ap_message q)) (ap_commit_mode q)
+                (ap_expected_channel_epoch q) (ap_expected_leader_epoch q).
+Definition clear_append_batch (q : append_batch_request) : append_batch_request :=
+  AppendBatchRequest (ab_id q) (omap (map clear_message) (ab_messages q)) (ab_trace_id q) (ab_channel_key q)
+                     (ab_attempt q) (ab_commit_mode q) (ab_expected_channel_epoch q) (ab_expected_leader_epoch q)
+                     (ab_omit_result_payload q) (ab_server_allocated q).
+Definition clear_pull_response (p : pull_response) : pull_response :=
+  PullResponse (ps_key p) (ps_epoch p) (ps_leader_epoch p) (ps_leader_hw p) (ps_leader_leo p)
+               (ps_activity_version p) (ps_next_pull_after p) (ps_control p) (omap clear_meta (ps_meta p))
+               (omap (map clear_record) (ps_records p)).
+Definition clear_append_result (q : append_result) : append_result :=
+  AppendResult (ar_id q) (ar_seq q) (clear_message (ar_message q)).
+Definition clear_last_visible_response (q : last_visible_response) : last_visible_response :=
+  LastVisibleResponse (omap clear_message (lr_message q)) (lr_last_committed_seq q)
+                      (lr_retention_through_seq q) (lr_current_user_last_send_seq q).
+Definition on_body {A} (f : A -> A) (vx : N * A) : N * A := (fst vx, f (snd vx)).
+
+Definition no_prefix_accepted (c : c27_case) : bool :=
+  match c_trunc_ok c with [] => true | _ => false end.
+
+Definition monitor_lossy {A} (f : fmt A) (clear : A -> A) (base per_byte : N)
            (c : c27_case) (v res : option A) : N :=
   if negb (alloc_under base per_byte c) then 1
   else match c_mode c with
@@ -82,13 +196,27 @@ Definition monitor_codec {A} (f : fmt A) (in_bounds : A -> bool) (base per_byte 
          match v with
          | Some x =>
            if c_enc_ok c then
-             if in_bounds x && negb (res_eqb f res (Some x)) then 1
-             else if negb (match c_trunc_ok c with [] => true | _ => false end) then 1
-             else 0
+             if wf f x then
+               (if res_eqb f res (Some x) && no_prefix_accepted c then 0 else 1)
+             else if wf f (clear x) then
+               (if res_eqb f res (Some (clear x)) then 2 else 1)
+             else if no_prefix_accepted c then 0 else 1
            else 0
          | None => 1
          end
        | 1 => if is_none res then 0 else 1
+       | _ => 0
+       end.
+Definition monitor_frame {A} (f : fmt (N * A)) (clear : A -> A) :=
+  monitor_lossy f (on_body clear) ChannelsAllocBase ChannelsAllocPerByte.
+Definition same {A} (x : A) : A := x.
+
+(* an unmodelled codec: the harness's own comparison, truncations and allocation *)
+Definition monitor_opaque (c : c27_case) (dec_ok rt_same : bool) : N :=
+  if negb (alloc_under ChannelsAllocBase ChannelsAllocPerByte c) then 1
+  else match c_mode c with
+       | 0 => if c_enc_ok c then (if rt_same && no_prefix_accepted c then 0 else 1) else 0
+       | 1 => if dec_ok then 1 else 0
        | _ => 0
        end.
 
@@ -103,4 +231,27 @@ Definition C27_monitor (c : c27_case) : N :=
     monitor_codec f (in_frame f) ReplAllocBase ReplAllocPerByte c v (eff_res c v res)
   | PReplResult v res =>
     monitor_codec exchangeBatchResult (in_frame exchangeBatchResult) ReplAllocBase ReplAllocPerByte c v (eff_res c v res)
+  | PProposePayload v res =>
+    monitor_eq pair_eqb (fun x => (fst x <? 65536) && all_bytes (snd x)) (Some 3)
+               EnvelopeAllocBase EnvelopeAllocPerByte c v (eff_res c v res)
+  | PForward v res =>
+    monitor_eq forward_eqb forward_wf None EnvelopeAllocBase EnvelopeAllocPerByte c v (eff_res c v res)
+  | PNetHeader wv wk v res =>
+    monitor_eq bytes_eqb (fun x => (wv <? 256) && (wk <? 256) && all_bytes x) (Some 2)
+               EnvelopeAllocBase EnvelopeAllocPerByte c v (eff_res c v res)
+  | PChPull v res => monitor_frame f_pull same c v (eff_res c v res)
+  | PChPullBatch v res => monitor_frame f_pull_batch same c v (eff_res c v res)
+  | PChAck v res => monitor_frame f_ack same c v (eff_res c v res)
+  | PChPullHint v res => monitor_frame f_pull_hint same c v (eff_res c v res)
+  | PChPullHintBatch v res => monitor_frame f_pull_hint_batch same c v (eff_res c v res)
+  | PChNotify v res => monitor_frame f_notify same c v (eff_res c v res)
+  | PChAppend v res => monitor_frame f_append clear_append c v (eff_res c v res)
+  | PChAppendBatch v res => monitor_frame f_append_batch clear_append_batch c v (eff_res c v res)
+  | PChLastVisible v res => monitor_frame f_last_visible same c v (eff_res c v res)
+  | PChConversationHeads v res => monitor_frame f_conversation_heads same c v (eff_res c v res)
+  | PChCommittedReads v res => monitor_frame f_committed_reads same c v (eff_res c v res)
+  | PChPullResponse v res => monitor_frame f_pull_response clear_pull_response c v (eff_res c v res)
+  | PChAppendResponse v res => monitor_frame f_append_response clear_append_result c v (eff_res c v res)
+  | PChLastVisibleResponse v res => monitor_frame f_last_visible_response clear_last_visible_response c v (eff_res c v res)
+  | POpaque _ dec_ok rt_same => monitor_opaque c dec_ok rt_same
   end.
